@@ -5,6 +5,9 @@
 //! a metamorphic experiment derived from the request's seed:
 //!   * isomorphic variants (random label bijection, quad order, container) must give the same bytes
 //!     (`FAIL.label_dependent`),
+//!   * the very same quads under seven enumeration orders of an order-preserving `SetDataset` (edges
+//!     duplicated across graphs adjacent / interleaved / reversed / shuffled) must give the same bytes
+//!     (`FAIL.order_dependent`),
 //!   * one-edit variants that an independent backtracking test finds non-isomorphic must give
 //!     different bytes (`FAIL.collision`); those it finds isomorphic must give the same bytes,
 //!   * the id map is a bijection onto c14n0..c14n(n-1), applying it gives the returned quads, the
@@ -112,6 +115,37 @@ pub fn generate(ctx: &mut GenCtx) {
     me2.push(quad(bn(0), iri(P0), bn(1), Some(iri(G0))));
     me2.push(quad(bn(1), iri(P0), bn(2), Some(iri("x:g1"))));
     emit_variants(ctx, "multi_graph_edges", &me2, var_n);
+    // multi-edges across graphs towards indistinguishable siblings + a near-twin component that shares the
+    // first-degree hashes without being automorphic; every dataset under several ENUMERATION orders in the
+    // order-preserving container (the related lists of Hash N-Degree Quads are in enumeration order)
+    {
+        let gsets: [&[Option<&str>]; 3] = [&[Some("tag:g1"), Some("tag:g2")], &[None, Some(G0)], &[None, Some("tag:g1"), Some("tag:g2")]];
+        for k in 2..=(if th { 3 } else { 2 }) {
+            for (gi, gs) in gsets.iter().enumerate() {
+                if gi == 2 && !th {
+                    continue;
+                }
+                for twist in 0..=3 {
+                    for outward in [true, false] {
+                        if !th && !outward && twist != 1 {
+                            continue;
+                        }
+                        let base = multi_edge_twins(k, gs, twist, outward, P0);
+                        let shuffles = if th { 3 } else { 1 };
+                        for (name, v) in enumeration_orders(&base, &mut ctx.rng, shuffles) {
+                            let r = Req { hash: "sha256".into(), df: 1.0, pl: 6, cont: "ord".into(), seed: ctx.rng.next() % 1_000_000_007, quads: v };
+                            ctx.stats.bump("family.multi_edge_twins");
+                            ctx.stats.bump(&format!("enumeration.{}", name));
+                            ctx.stats.bump("container.ord");
+                            ctx.emit(&r.render());
+                        }
+                        let rl = relabel_random(&base, &mut ctx.rng);
+                        emit(ctx, "multi_edge_twins.relabelled", &rl, "sha384", 1.0, 6);
+                    }
+                }
+            }
+        }
+    }
     // self loops, a node twice in one quad
     emit_variants(ctx, "self_loop", &[quad(bn(0), iri(P0), bn(0), None), quad(bn(1), iri(P0), iri("x:o"), None)], var_n);
     emit_variants(ctx, "self_loop", &[quad(bn(0), iri(P0), bn(0), None), quad(bn(1), iri(P0), bn(1), None), quad(bn(0), iri(P1), bn(1), None)], var_n);
@@ -248,6 +282,7 @@ pub fn exec(line: &str) -> String {
     let mut iso_runs = 0;
     let mut noniso_runs = 0;
     let mut flips = 0;
+    let mut order_runs = 0;
     if o.err.as_deref() != Some("unsupported") && o.err.as_deref() != Some("panic") {
         for k in 0..3 {
             let mut v = relabel_random(&req.quads, &mut rng);
@@ -269,6 +304,21 @@ pub fn exec(line: &str) -> String {
                 _ => flips += 1, // toxic for one presentation only: outside the property ("whenever it succeeds")
             }
         }
+        // the same quads under other enumeration orders (order-preserving container, same labels)
+        if let Some(a) = &o.out {
+            for (name, v) in enumeration_orders(&req.quads, &mut rng, 2) {
+                let o2 = run_impl(&v, &req.hash, req.df, req.pl, "ord");
+                order_runs += 1;
+                match &o2.out {
+                    Some(b) if a != b => o.fails.push((
+                        "order_dependent".into(),
+                        hex(&format!("{} {}", name, Req { quads: v.clone(), cont: "ord".into(), ..req.clone() }.render())),
+                    )),
+                    Some(_) => {}
+                    None => flips += 1,
+                }
+            }
+        }
         if let Some(a) = &o.out {
             for _ in 0..3 {
                 let Some(v) = one_edit(&req.quads, &mut rng) else { continue };
@@ -286,7 +336,7 @@ pub fn exec(line: &str) -> String {
             }
         }
     }
-    reply += &format!(" meta={}/{}/{}", iso_runs, noniso_runs, flips);
+    reply += &format!(" meta={}/{}/{}/{}", iso_runs, order_runs, noniso_runs, flips);
     reply += &fails(&o);
     reply
 }
